@@ -1,651 +1,291 @@
-(* C17: theorems about the eventual-send queue model (lib/Eventual.v) instantiated with the
-   shape facts read from the source (src_cfg). *)
+(* C17: THE TIE of the queue model.  The translated code of eventual.py in its environment (lib/Eventual.v: run_g)
+   and the reference machine (lib/EventualSpec.v: run good_cfg) are the same function of the program: same trace,
+   same state after every prefix (run_bridge).  The theorems proved about the reference machine
+   (lib/EventualSpecProofs.v) are then restated about the translated code.
+
+   The proofs look at the translated methods only through what they DO: straight-line statements are executed by
+   computation on a symbolic state; the body of the batch loop is used only through "it invokes the entry and
+   swallows whatever it raises", the observer loop only through its condition and "its body pops the head of the
+   live list and fires it" (extensional side conditions, closed by computation).  A rewrite of eventual.py that
+   changes what a method does makes one of these side conditions false and this file stops compiling. *)
 From Coq Require Import ZArith List Bool Lia.
 Import ListNotations.
-Require Import Verif.gen.EventualGen Verif.lib.Eventual.
+Require Import Verif.lib.EventualBase Verif.gen.EventualGen Verif.lib.EventualSpec Verif.lib.EventualSpecProofs
+  Verif.lib.Eventual.
 Local Open Scope Z_scope.
 
-Definition good_cfg : evcfg := {|
-  c_pos := Tail; c_arms := true; c_clears := true; c_order := Forward; c_catch := CatchAll;
-  c_fire := FireWhileEmpty; c_marks := true; c_guard := FlushWhenIdle; c_append_runs := false |}.
-
-(* THE TIE: the facts read from the source are the ones the proofs below rely on.  An edit of
-   eventual.py that changes one of them changes gen/EventualGen.v and this lemma fails. *)
-Lemma src_is_good : src_cfg = good_cfg.
-Proof. reflexivity. Qed.
-
-(* ---- induction over actions whose flush callbacks are again lists of actions (nested inductive):
-   to prove P for every action it is enough to prove it for eventually(s) from P for every action of s, and for a
-   flush request from P for every action of its callback *)
-Fixpoint act_nested_ind (P : act -> Prop)
-    (HE : forall s, Forall P (sacts s) -> P (AEnq s))
-    (HF : forall fid cb, Forall P cb -> P (AFlush fid cb)) (a : act) {struct a} : P a :=
-  match a with
-  | AEnq s =>
-      match s return P (AEnq s) with
-      | Sc i acts k =>
-          HE (Sc i acts k) ((fix go (l : list act) : Forall P l :=
-                    match l with
-                    | [] => Forall_nil P
-                    | x :: l' => Forall_cons x (act_nested_ind P HE HF x) (go l')
-                    end) acts)
-      end
-  | AFlush fid cb =>
-      HF fid cb ((fix go (l : list act) : Forall P l :=
-                    match l with
-                    | [] => Forall_nil P
-                    | x :: l' => Forall_cons x (act_nested_ind P HE HF x) (go l')
-                    end) cb)
-  end.
-
-Definition ids (l : list script) : list Z := map sid l.
-
-Lemma subs_app a b : subs (a ++ b) = subs a ++ subs b.
-Proof. induction a as [|e a IH]; [reflexivity|]. destruct e; cbn [app subs]; rewrite ?IH; reflexivity. Qed.
-Lemma rans_app a b : rans (a ++ b) = rans a ++ rans b.
-Proof. induction a as [|e a IH]; [reflexivity|]. destruct e; cbn [app rans]; rewrite ?IH; reflexivity. Qed.
-Lemma fdeferred_app a b : fdeferred (a ++ b) = fdeferred a ++ fdeferred b.
+(* ---- eventually() / flushEventualQueue(), as translated *)
+Lemma eventually_bridge (E : qenv) s w :
+  exists w', m_eventually E s w = (w', [], FNorm) /\ to_q w' = enq1 good_cfg (to_q w) s.
 Proof.
-  induction a as [|e a IH]; [reflexivity|].
-  destruct e as [| | | | |f d|]; cbn [app fdeferred]; try destruct d; rewrite ?IH; reflexivity.
-Qed.
-Lemma fpopped_app a b : fpopped (a ++ b) = fpopped a ++ fpopped b.
-Proof. induction a as [|e a IH]; [reflexivity|]. destruct e; cbn [app fpopped]; rewrite ?IH; reflexivity. Qed.
-Lemma ffired_app a b : ffired (a ++ b) = ffired a ++ ffired b.
-Proof. induction a as [|e a IH]; [reflexivity|]. destruct e; cbn [app ffired]; rewrite ?IH; reflexivity. Qed.
-Lemma fanswered_app a b : fanswered (a ++ b) = fanswered a ++ fanswered b.
-Proof.
-  induction a as [|e a IH]; [reflexivity|].
-  destruct e as [| | | | |f d|]; cbn [app fanswered]; try destruct d; rewrite ?IH; reflexivity.
-Qed.
-Lemma freqs_app a b : freqs (a ++ b) = freqs a ++ freqs b.
-Proof. induction a as [|e a IH]; [reflexivity|]. destruct e; cbn [app freqs]; rewrite ?IH; reflexivity. Qed.
-
-Lemma ids_app a b : ids (a ++ b) = ids a ++ ids b.
-Proof. apply map_app. Qed.
-
-(* between operations: the timer flag mirrors the reactor, and pending work is always scheduled *)
-Definition wfq (st : qstate) : Prop :=
-  timer st = sched st /\ (events st <> [] -> sched st = true).
-
-(* an observer is registered only while work is queued (outside the batch loop) *)
-Definition qinv (st : qstate) : Prop := events st = [] -> flushers st = [].
-
-Definition noflushfired (t : list ev) : Prop :=
-  Forall (fun e => match e with FlushFired _ _ _ => False | _ => True end) t.
-
-Lemma noflushfired_ok t : noflushfired t -> Forall flush_ok t.
-Proof. intros H. eapply Forall_impl; [|exact H]. intros e; destruct e; cbn; tauto. Qed.
-
-(* ---- eventually(s) *)
-Lemma enq1_good st s :
-  ids (events (enq1 good_cfg st s)) = ids (events st) ++ [sid s] /\
-  in_turn (enq1 good_cfg st s) = in_turn st /\ flushers (enq1 good_cfg st s) = flushers st /\
-  (wfq st -> wfq (enq1 good_cfg st s)) /\ (sched st = true -> sched (enq1 good_cfg st s) = true) /\
-  events (enq1 good_cfg st s) <> [].
-Proof.
-  unfold enq1. cbn [good_cfg c_pos c_arms events in_turn flushers timer sched].
-  split; [rewrite ids_app; reflexivity|]. split; [reflexivity|]. split; [reflexivity|]. split; [|split].
-  - intros [H1 H2]. unfold wfq; cbn [timer sched events]. rewrite H1, andb_true_r.
-    split; [reflexivity|]. intros _. destruct (sched st); reflexivity.
-  - intros ->. reflexivity.
-  - intros C. apply app_eq_nil in C as [_ C]. discriminate.
+  unfold m_eventually, m_append, seqa, cond, ret, p_events_append, p_arm_timer, t_timer, enq1, to_q, upd_events.
+  cbn [good_cfg c_pos c_arms events flushers timer sched in_turn].
+  destruct (w_timer w) eqn:T; destruct (w_sched w) eqn:Sd; cbn [negb andb orb app];
+    eexists; (split; [reflexivity|]); cbn [w_events w_flushers w_timer w_sched w_in_turn];
+    rewrite ?T, ?Sd; reflexivity.
 Qed.
 
-(* ---- what a list of actions does, under the current code (good_cfg), whoever performs it:
-   nothing runs; the queue grows by what was submitted; deferred flush requests are appended to the
-   observers, in order; every notification answers a request made on the idle queue *)
-Definition acts_spec (ctx : option (list script)) (st st' : qstate) (t : list ev) : Prop :=
-  rans t = [] /\ fpopped t = [] /\
-  ids (events st') = ids (events st) ++ subs t /\
-  in_turn st' = in_turn st /\
-  map fst (flushers st') = map fst (flushers st) ++ fdeferred t /\
-  ffired t = fanswered t /\
-  (wfq st -> wfq st') /\
-  (sched st = true -> sched st' = true) /\
-  (in_turn st = true -> noflushfired t) /\
-  (ctx = None -> Forall flush_ok t) /\
-  (in_turn st = false -> qinv st -> qinv st') /\
-  (events st <> [] -> events st' <> []).
-
-Lemma acts_spec_refl ctx st : acts_spec ctx st st [].
+Lemma flush_bridge (E : qenv) d w :
+  (flush_idle good_cfg (to_q w) = true /\ m_flushEventualQueue E d w = (w, [], FRet RFired)) \/
+  (flush_idle good_cfg (to_q w) = false /\
+   exists w', m_flushEventualQueue E d w = (w', [], FRet RUnfired) /\
+              to_q w' = set_flushers (to_q w) (flushers (to_q w) ++ [d])).
 Proof.
-  unfold acts_spec. cbn [rans fpopped subs fdeferred ffired fanswered]. rewrite !app_nil_r.
-  repeat (split; [first [reflexivity | solve [auto] | intros; constructor]|]). auto.
+  cbv beta iota zeta delta [m_flushEventualQueue m_flush seqa cond ret ret_with p_new_deferred p_observers_append
+    t_events t_in_turn flush_idle to_q upd_flushers set_flushers good_cfg c_guard events flushers timer sched in_turn].
+  destruct (is_nil (w_events w)) eqn:En; destruct (w_in_turn w) eqn:Ei; cbv beta iota zeta delta [negb andb app].
+  - right. split; [reflexivity|]. eexists. split; [reflexivity|]. cbn. rewrite Ei. reflexivity.
+  - left. split; reflexivity.
+  - right. split; [reflexivity|]. eexists. split; [reflexivity|]. cbn. rewrite Ei. reflexivity.
+  - right. split; [reflexivity|]. eexists. split; [reflexivity|]. cbn. rewrite Ei. reflexivity.
 Qed.
 
-Lemma acts_spec_trans ctx st st1 st2 t1 t2 :
-  acts_spec ctx st st1 t1 -> acts_spec ctx st1 st2 t2 -> acts_spec ctx st st2 (t1 ++ t2).
+(* fireEventually(v) is eventually(d.callback, v) for a new Deferred d, which it returns unfired *)
+Lemma fire_eventually_is_eventually (E : qenv) s w :
+  exists w', m_fireEventually E s w = (w', [], FRet RUnfired) /\ m_eventually E s w = (w', [], FNorm).
 Proof.
-  intros (A1 & A2 & A3 & A4 & A5 & A6 & A7 & A8 & A9 & A10 & A11 & A12)
-         (B1 & B2 & B3 & B4 & B5 & B6 & B7 & B8 & B9 & B10 & B11 & B12).
-  unfold acts_spec.
-  rewrite rans_app, fpopped_app, subs_app, fdeferred_app, ffired_app, fanswered_app.
-  rewrite A1, B1, A2, B2, B3, A3, B4, A4, B5, A5, A6, B6, <- !app_assoc.
-  split; [reflexivity|]. split; [reflexivity|]. split; [reflexivity|]. split; [reflexivity|].
-  split; [reflexivity|]. split; [reflexivity|]. split; [auto|]. split; [auto|].
-  split; [|split; [|split]].
-  - intros Hi. apply Forall_app. split; [apply A9; exact Hi|]. apply B9. congruence.
-  - intros Hc. apply Forall_app. split; [apply A10; exact Hc|apply B10; exact Hc].
-  - intros Hi Hq. apply B11; [congruence|]. apply A11; assumption.
-  - auto.
+  destruct (eventually_bridge E s w) as (w' & A & _). exists w'. split; [|exact A].
+  unfold m_fireEventually, seqa, p_new_deferred, ret, ret_with. rewrite A. reflexivity.
 Qed.
 
-Lemma run_list_spec ctx l :
-  Forall (fun a => forall st st' t, do_act good_cfg ctx st a = (st', t) -> acts_spec ctx st st' t) l ->
-  forall st st' t, run_list (do_act good_cfg ctx) l st = (st', t) -> acts_spec ctx st st' t.
+(* ---- actions *)
+Lemma run_list_bridge ctx l :
+  Forall (fun a => forall w, let '(w', t) := do_act_g ctx w a in do_act good_cfg ctx (to_q w) a = (to_q w', t)) l ->
+  forall w, let '(w', t) := run_list_g (do_act_g ctx) l w in run_list (do_act good_cfg ctx) l (to_q w) = (to_q w', t).
 Proof.
-  induction 1 as [|a l Ha _ IH]; intros st st' t; cbn [run_list].
-  - intros H; injection H as <- <-. apply acts_spec_refl.
-  - destruct (do_act good_cfg ctx st a) as [st1 t1] eqn:E1.
-    destruct (run_list (do_act good_cfg ctx) l st1) as [st2 t2] eqn:E2.
-    intros H; injection H as <- <-.
-    eapply acts_spec_trans; [apply Ha; exact E1|apply IH; exact E2].
+  induction l as [|a l IH]; intros H w; cbn [run_list_g run_list]; [reflexivity|].
+  inversion H as [|x y Ha Hl]; subst. specialize (Ha w).
+  destruct (do_act_g ctx w a) as [w1 t1]. rewrite Ha. specialize (IH Hl w1).
+  destruct (run_list_g (do_act_g ctx) l w1) as [w2 t2].
+  change ((fix go (l0 : list act) (st0 : qstate) {struct l0} : qstate * list ev :=
+             match l0 with
+             | [] => (st0, [])
+             | a0 :: l' => let '(st1, t0) := do_act good_cfg ctx st0 a0 in let '(st2, t3) := go l' st1 in (st2, t0 ++ t3)
+             end) l (to_q w1)) with (run_list (do_act good_cfg ctx) l (to_q w1)).
+  rewrite IH. reflexivity.
 Qed.
 
-Lemma do_act_unfold c ctx st fid cb :
-  do_act c ctx st (AFlush fid cb) =
-  if flush_idle c st
-  then let '(st', t) := run_acts c ctx st cb in (st', FlushReq fid false :: fired_ev ctx st fid :: t)
-  else (set_flushers st (flushers st ++ [(fid, cb)]), [FlushReq fid true]).
-Proof. reflexivity. Qed.
-
-(* ---- one action *)
-Lemma do_act_spec ctx a : forall st st' t,
-  do_act good_cfg ctx st a = (st', t) -> acts_spec ctx st st' t.
+Lemma do_act_bridge a : forall ctx w,
+  let '(w', t) := do_act_g ctx w a in do_act good_cfg ctx (to_q w) a = (to_q w', t).
 Proof.
-  induction a as [s _|fid cb IH] using act_nested_ind; intros st st' t.
-  - cbn [do_act good_cfg c_append_runs]. intros H; injection H as <- <-.
-    destruct (enq1_good st s) as (A1 & A2 & A3 & A4 & A5 & A6).
-    unfold acts_spec. cbn [rans fpopped subs fdeferred ffired fanswered]. rewrite A3, app_nil_r.
-    split; [reflexivity|]. split; [reflexivity|]. split; [exact A1|]. split; [exact A2|].
-    split; [reflexivity|]. split; [reflexivity|]. split; [exact A4|]. split; [exact A5|].
-    split; [intros _; repeat constructor|]. split; [intros _; repeat constructor|].
-    split; [intros _ _ C; contradiction|]. intros _; exact A6.
-  - rewrite do_act_unfold. unfold flush_idle, run_acts. cbn [good_cfg c_guard].
-    destruct (is_nil (events st) && negb (in_turn st)) eqn:E.
-    + apply andb_true_iff in E as [E1 E2]. apply negb_true_iff in E2.
-      assert (He : events st = []) by (destruct (events st); [reflexivity|discriminate]).
-      destruct (run_list (do_act good_cfg ctx) cb st) as [st1 t1] eqn:E3.
-      intros H; injection H as <- <-.
-      apply (run_list_spec ctx cb IH) in E3 as (A1 & A2 & A3 & A4 & A5 & A6 & A7 & A8 & A9 & A10 & A11 & A12).
-      unfold acts_spec, fired_ev. cbn [rans fpopped subs fdeferred ffired fanswered].
-      rewrite A6.
-      split; [exact A1|]. split; [exact A2|]. split; [exact A3|]. split; [exact A4|].
-      split; [exact A5|]. split; [reflexivity|]. split; [exact A7|]. split; [exact A8|].
-      split; [intros C; congruence|]. split; [|split; [exact A11|exact A12]].
-      intros ->. constructor; [exact I|]. constructor; [|apply A10; reflexivity].
-      cbn [flush_ok]. rewrite He. split; reflexivity.
-    + intros H; injection H as <- <-.
-      unfold acts_spec. cbn [set_flushers events in_turn timer sched flushers rans fpopped subs fdeferred ffired fanswered].
-      rewrite app_nil_r, map_app. cbn [map fst].
-      split; [reflexivity|]. split; [reflexivity|]. split; [reflexivity|]. split; [reflexivity|].
-      split; [reflexivity|]. split; [reflexivity|].
-      split; [intros [H1 H2]; split; assumption|]. split; [auto|].
-      split; [intros _; repeat constructor|]. split; [intros _; repeat constructor|].
-      split; [|auto].
-      intros Hi _ C. cbn [set_flushers events] in C. rewrite Hi, C in E. discriminate.
+  induction a as [s IHs|fid cb IHcb] using act_nested_ind; intros ctx w.
+  - destruct s as [i acts k]. cbn [do_act_g].
+    match goal with |- context [m_eventually ?E ?s ?w] => destruct (eventually_bridge E s w) as (w' & A & B); rewrite A end.
+    cbn [escape_evs app]. cbn [do_act good_cfg c_append_runs sid]. rewrite B. reflexivity.
+  - cbn [do_act_g]. rewrite do_act_unfold.
+    match goal with |- context [m_flushEventualQueue ?E ?d ?w] =>
+      destruct (flush_bridge E d w) as [(I & A)|(I & w' & A & B)]; rewrite A, I end.
+    + assert (H := run_list_bridge ctx cb). unfold run_acts.
+      assert (Hf : Forall (fun a => forall w, let '(w', t) := do_act_g ctx w a in do_act good_cfg ctx (to_q w) a = (to_q w', t)) cb).
+      { eapply Forall_impl; [|exact IHcb]. intros a Ha. apply Ha. }
+      specialize (H Hf w). destruct (run_list_g (do_act_g ctx) cb w) as [w'' t']. rewrite H. reflexivity.
+    + cbn [app]. rewrite B. reflexivity.
 Qed.
 
-Lemma run_acts_spec ctx l st st' t :
-  run_acts good_cfg ctx st l = (st', t) -> acts_spec ctx st st' t.
+Lemma run_acts_bridge ctx l w :
+  let '(w', t) := run_acts_g ctx w l in run_acts good_cfg ctx (to_q w) l = (to_q w', t).
 Proof.
-  unfold run_acts. apply run_list_spec. apply Forall_forall. intros a _. apply do_act_spec.
+  unfold run_acts_g, run_acts. apply run_list_bridge. apply Forall_forall. intros a _ w1. apply do_act_bridge.
 Qed.
 
-Lemma notify_spec st f cb st' t :
-  notify good_cfg None st f cb = (st', t) -> events st = [] -> in_turn st = false ->
-  exists t', t = FlushFired f 0%nat false :: t' /\ acts_spec None st st' t'.
+(* ---- the batch loop: any body that invokes the entry and swallows what it raises *)
+Definition swallows (body : script -> list script -> qact) : Prop :=
+  forall x rest w, body x rest w =
+    (let '(w1, t1, f1) := call_g x rest w in (w1, t1, match f1 with FRet r => FRet r | _ => FNorm end)).
+
+Lemma for_list_bridge body : swallows body -> forall batch w,
+  let '(w1, t1, f1) := for_list body batch w in
+  run_batch good_cfg (to_q w) batch = (to_q w1, t1, true) /\ f1 = FNorm.
 Proof.
-  unfold notify. destruct (run_acts good_cfg None st cb) as [st1 t1] eqn:E.
-  intros H He Hi; injection H as <- <-. exists t1. unfold fired_ev. rewrite He. split; [reflexivity|].
-  eapply run_acts_spec. exact E.
+  intros Hb. induction batch as [|s rest IH]; intros w; cbn [for_list run_batch].
+  - split; reflexivity.
+  - rewrite Hb. unfold call_g. pose proof (run_acts_bridge (Some rest) (sacts s) w) as A.
+    destruct (run_acts_g (Some rest) w (sacts s)) as [w1 t1]. rewrite A.
+    specialize (IH w1). destruct (for_list body rest w1) as [[w2 t2] f2]. destruct IH as [IH ->].
+    cbn [good_cfg c_catch catches]. rewrite IH. unfold raise_evs.
+    destruct (sraises s); cbn [app]; split; try reflexivity; rewrite <- ?app_assoc; reflexivity.
 Qed.
 
-(* ---- the batch loop *)
-Lemma run_batch_good batch : forall st st' t ok,
-  run_batch good_cfg st batch = (st', t, ok) ->
-  ok = true /\ rans t = ids batch /\ ids (events st') = ids (events st) ++ subs t /\
-  in_turn st' = in_turn st /\ (wfq st -> wfq st') /\ (in_turn st = true -> noflushfired t) /\
-  fpopped t = [] /\ map fst (flushers st') = map fst (flushers st) ++ fdeferred t /\ ffired t = fanswered t.
+(* ---- the observer loop: condition "observers registered and nothing queued", body "pop the head and fire it" *)
+Definition pops_and_fires (body : qact) : Prop := forall w, body w = p_pop0_callback fire_g w.
+Definition obs_cond (c : qw -> bool) : Prop :=
+  forall w, c w = negb (is_nil (w_flushers w)) && is_nil (w_events w).
+
+Lemma while_bridge c body : obs_cond c -> pops_and_fires body -> forall n w,
+  let '(w1, t1, f1) := while_fuel n c body w in
+  fire_while good_cfg n (to_q w) = (to_q w1, t1) /\ f1 = FNorm.
 Proof.
-  induction batch as [|s rest IH]; intros st st' t ok; cbn [run_batch].
-  - intros H; inversion H; subst. cbn [rans subs ids map fpopped fdeferred ffired fanswered]. rewrite !app_nil_r.
-    repeat (split; [first [reflexivity | solve [auto] | intros; constructor]|]). reflexivity.
-  - destruct (run_acts good_cfg (Some rest) st (sacts s)) as [st1 t1] eqn:E1.
-    apply run_acts_spec in E1 as (A1 & A2 & A3 & A4 & A5 & A6 & A7 & A8 & A9 & A10 & A11 & A12).
-    unfold catches. cbn [c_catch good_cfg].
-    destruct (run_batch good_cfg st1 rest) as [[st2 t2] ok2] eqn:E2.
-    apply IH in E2 as (B0 & B1 & B2 & B3 & B4 & B5 & B6 & B7 & B8).
-    destruct (sraises s); intros H; inversion H; subst; clear H;
-      cbn [rans subs ids map fpopped fdeferred ffired fanswered];
-      rewrite ?rans_app, ?subs_app, ?fpopped_app, ?fdeferred_app, ?ffired_app, ?fanswered_app;
-      cbn [rans subs fpopped fdeferred ffired fanswered];
-      rewrite A1, B1, B2, A3, B3, A4, A2, B6, B7, A5, A6, B8, <- ?app_assoc; cbn [app ids];
-      (split; [reflexivity|]); (split; [reflexivity|]); (split; [reflexivity|]); (split; [reflexivity|]);
-      (split; [auto|]);
-      (split; [|split; [reflexivity|split; reflexivity]]);
-      intros Hi; assert (N1 := A9 Hi); (assert (N2 : noflushfired t2) by (apply B5; congruence));
-      unfold noflushfired in *; (constructor; [exact I|]); apply Forall_app; (split; [exact N1|]);
-      first [exact N2 | constructor; [exact I | exact N2]].
-Qed.
-
-(* ---- the observer loop never runs out of fuel, for EVERY configuration: one notification takes one
-   registered observer away and its callback can register at most as many as it contains flush requests *)
-Lemma act_flushes_unfold fid cb : act_flushes (AFlush fid cb) = S (acts_flushes cb).
-Proof.
-  reflexivity.
-Qed.
-
-Lemma act_flushes_enq s : act_flushes (AEnq s) = acts_flushes (sacts s).
-Proof. destruct s. reflexivity. Qed.
-
-Lemma obs_weight_app a b : obs_weight (a ++ b) = (obs_weight a + obs_weight b)%nat.
-Proof. unfold obs_weight. induction a as [|x a IH]; [reflexivity|]. cbn [app fold_right]. rewrite IH. lia. Qed.
-
-Lemma enq1_flushers c st s : flushers (enq1 c st s) = flushers st.
-Proof. reflexivity. Qed.
-
-Lemma run_list_weight c l :
-  Forall (fun a => forall ctx st, (obs_weight (flushers (fst (do_act c ctx st a))) <= obs_weight (flushers st) + act_flushes a)%nat) l ->
-  forall ctx st, (obs_weight (flushers (fst (run_list (do_act c ctx) l st))) <= obs_weight (flushers st) + acts_flushes l)%nat.
-Proof.
-  induction 1 as [|a l Ha _ IH]; intros ctx st; cbn [run_list].
-  - cbn. lia.
-  - specialize (Ha ctx st). destruct (do_act c ctx st a) as [st1 t1]. cbn [fst] in Ha.
-    specialize (IH ctx st1). destruct (run_list (do_act c ctx) l st1) as [st2 t2]. cbn [fst] in *.
-    unfold acts_flushes in *. cbn [fold_right]. lia.
-Qed.
-
-Lemma do_act_weight c a : forall ctx st,
-  (obs_weight (flushers (fst (do_act c ctx st a))) <= obs_weight (flushers st) + act_flushes a)%nat.
-Proof.
-  induction a as [s IH|fid cb IH] using act_nested_ind; intros ctx st.
-  - rewrite act_flushes_enq. destruct s as [i acts k]. cbn [do_act sacts] in *. destruct (c_append_runs c).
-    + pose proof (run_list_weight c acts IH (Some match ctx with Some r => r | None => [] end) (enq1 c st (Sc i acts k))) as W.
-      destruct (run_list _ acts (enq1 c st (Sc i acts k))) as [st1 t1]. cbn [fst] in *.
-      rewrite enq1_flushers in W. lia.
-    + cbn [fst]. rewrite enq1_flushers. lia.
-  - rewrite do_act_unfold, act_flushes_unfold. unfold run_acts. destruct (flush_idle c st).
-    + pose proof (run_list_weight c cb IH ctx st) as W.
-      destruct (run_list (do_act c ctx) cb st) as [st1 t1]. cbn [fst] in *. lia.
-    + cbn [fst set_flushers flushers]. rewrite obs_weight_app. unfold obs_weight at 2. cbn [fold_right snd]. lia.
-Qed.
-
-Lemma run_acts_weight c ctx l st :
-  (obs_weight (flushers (fst (run_acts c ctx st l))) <= obs_weight (flushers st) + acts_flushes l)%nat.
-Proof. unfold run_acts. apply run_list_weight. apply Forall_forall. intros a _. apply do_act_weight. Qed.
-
-(* the `while` loop of _turn ends because its condition is false, never because the model's fuel is used up *)
-Theorem fire_while_complete : forall c fuel st,
-  (obs_weight (flushers st) <= fuel)%nat ->
-  flushers (fst (fire_while c fuel st)) = [] \/ events (fst (fire_while c fuel st)) <> [].
-Proof.
-  intros c fuel. induction fuel as [|fuel IH]; intros st Hw; cbn [fire_while].
-  - left. cbn [fst]. destruct (flushers st) as [|[f cb] rest]; [reflexivity|].
-    unfold obs_weight in Hw. cbn [fold_right] in Hw. lia.
-  - destruct (flushers st) as [|[f cb] rest] eqn:Ef; [left; exact Ef|].
-    destruct (is_nil (events st)) eqn:En.
-    + unfold notify.
-      pose proof (run_acts_weight c None cb (set_flushers st rest)) as W.
-      destruct (run_acts c None (set_flushers st rest) cb) as [st1 t1]. cbn [fst set_flushers flushers] in W.
-      assert (W1 : (obs_weight (flushers st1) <= fuel)%nat).
-      { unfold obs_weight in Hw. cbn [fold_right snd] in Hw. fold (obs_weight rest) in Hw. lia. }
-      specialize (IH st1 W1). destruct (fire_while c fuel st1) as [st2 t2]. exact IH.
-    + right. cbn [fst]. intros C. rewrite C in En. discriminate.
+  intros Hc Hb. induction n as [|n IH]; intros w; cbn [while_fuel fire_while].
+  - split; reflexivity.
+  - rewrite Hc, Hb. unfold p_pop0_callback. cbn [to_q flushers events].
+    destruct (w_flushers w) as [|[f cb] rest] eqn:Fl; cbn [is_nil negb andb]; [split; reflexivity|].
+    destruct (is_nil (w_events w)) eqn:En; [|split; reflexivity].
+    unfold fire_g, notify. cbn [fst snd].
+    pose proof (run_acts_bridge None cb (upd_flushers w rest)) as A.
+    destruct (run_acts_g None (upd_flushers w rest) cb) as [w1 t1].
+    assert (Hq : to_q (upd_flushers w rest) = set_flushers (to_q w) rest) by reflexivity.
+    rewrite Hq in A. cbn [to_q] in A.
+    change (set_flushers {| events := w_events w; flushers := w_flushers w; timer := w_timer w; sched := w_sched w;
+                            in_turn := w_in_turn w |} rest) with (set_flushers (to_q w) rest).
+    rewrite A. specialize (IH w1). destruct (while_fuel n c body w1) as [[w2 t2] f2]. destruct IH as [IH ->].
+    rewrite IH. rewrite Hq. split; reflexivity.
 Qed.
 
 (* ---- one reactor turn *)
-(* between operations no batch is running, and observers are registered only while work is queued *)
-Definition wft (st : qstate) : Prop :=
-  wfq st /\ in_turn st = false /\ qinv st.
+Ltac close_ext :=
+  intros x0 rest0 wx; cbv beta delta [seqa try_catch ret p_log_err e_call env_turn]; cbn beta iota;
+  destruct (call_g x0 rest0 wx) as [[wy ty] [|ry|iy ky]]; cbn [catches app]; rewrite ?app_nil_r; reflexivity.
 
-Lemma fire_while_good fuel : forall st st' t,
-  fire_while good_cfg fuel st = (st', t) -> wfq st -> in_turn st = false ->
-  wfq st' /\ in_turn st' = false /\ Forall flush_ok t /\ rans t = [] /\
-  ids (events st') = ids (events st) ++ subs t /\
-  map fst (flushers st) ++ fdeferred t = fpopped t ++ map fst (flushers st') /\
-  ffired t = fanswered t.
+Lemma turn_bridge w : let '(w', t) := turn_g w in turn good_cfg (to_q w) = (to_q w', t).
 Proof.
-  induction fuel as [|fuel IH]; intros st st' t; cbn [fire_while].
-  - intros H W Hi; injection H as <- <-. cbn [rans subs fdeferred fpopped ffired fanswered]. rewrite !app_nil_r.
-    repeat (split; [first [reflexivity | assumption | constructor]|]). reflexivity.
-  - destruct (flushers st) as [|[f cb] rest] eqn:Ef.
-    + intros H W Hi; injection H as <- <-. cbn [rans subs fdeferred fpopped ffired fanswered]. rewrite Ef, !app_nil_r.
-      repeat (split; [first [reflexivity | assumption | constructor]|]). reflexivity.
-    + destruct (is_nil (events st)) eqn:En.
-      * destruct (notify good_cfg None (set_flushers st rest) f cb) as [st1 t1] eqn:E1.
-        destruct (fire_while good_cfg fuel st1) as [st2 t2] eqn:E2.
-        intros H W Hi; injection H as <- <-.
-        assert (He : events st = []) by (destruct (events st); [reflexivity|discriminate]).
-        apply notify_spec in E1 as (t1' & -> & (A1 & A2 & A3 & A4 & A5 & A6 & A7 & A8 & A9 & A10 & A11 & A12));
-          [|exact He|exact Hi].
-        cbn [set_flushers events flushers in_turn] in *.
-        assert (W1 : wfq st1) by (apply A7; destruct W as [W1 W2]; split; assumption).
-        apply IH in E2 as (B1 & B2 & B3 & B4 & B5 & B6 & B7); [|exact W1|congruence].
-        split; [exact B1|]. split; [exact B2|]. split.
-        { constructor; [exact I|]. constructor; [cbn; split; reflexivity|].
-          apply Forall_app; split; [apply A10; reflexivity|exact B3]. }
-        cbn [rans subs fdeferred fpopped ffired fanswered app map fst].
-        rewrite rans_app, subs_app, fdeferred_app, fpopped_app, ffired_app, fanswered_app.
-        rewrite A1, B4, B5, A3, A2, A6, B7, <- !app_assoc. cbn [app].
-        split; [reflexivity|]. split; [reflexivity|]. split; [|reflexivity].
-        f_equal. rewrite app_assoc, <- A5. exact B6.
-      * intros H W Hi; injection H as <- <-. cbn [rans subs fdeferred fpopped ffired fanswered]. rewrite Ef, !app_nil_r.
-        repeat (split; [first [reflexivity | assumption | constructor]|]). reflexivity.
+  unfold turn_g, turn. cbn [to_q sched]. destruct (w_sched w) eqn:Sc; cbn [negb]; [|reflexivity].
+  unfold m__turn.
+  (* the straight-line prefix, by computation *)
+  cbv beta delta [seqa p_timer_none p_swap_events p_set_in_turn p_for_loc p_while] iota.
+  cbn [w_events w_flushers w_timer w_sched w_in_turn w_loc w_obs w_user].
+  match goal with |- context [for_list ?body ?batch ?w1] =>
+    assert (Hb : swallows body) by (unfold swallows; close_ext);
+    pose proof (for_list_bridge body Hb batch w1) as A; destruct (for_list body batch w1) as [[w2 t2] f2] end.
+  destruct A as [A ->]. unfold to_q. cbn [good_cfg c_clears c_marks c_order events flushers timer sched in_turn].
+  unfold to_q in A. cbn [w_events w_flushers w_timer w_sched w_in_turn] in A. rewrite A.
+  cbn [w_events w_flushers w_timer w_sched w_in_turn w_loc w_obs w_user].
+  match goal with |- context [while_fuel ?n ?c ?body ?w3] =>
+    assert (Hc : obs_cond c) by (unfold obs_cond, t_observers, t_events; intros; cbn beta; rewrite negb_involutive; reflexivity);
+    assert (Hp : pops_and_fires body) by (unfold pops_and_fires, env_turn, e_fire; intros; cbv beta delta [seqa ret]; cbn beta iota;
+      match goal with |- context [p_pop0_callback ?f ?x] => destruct (p_pop0_callback f x) as [[? ?] [|?|? ?]] end; rewrite ?app_nil_r; reflexivity);
+    pose proof (while_bridge c body Hc Hp n w3) as B; destruct (while_fuel n c body w3) as [[w4 t4] f4] end.
+  destruct B as [B ->]. unfold fire. cbn [good_cfg c_fire flushers].
+  unfold to_q in B. cbn [w_events w_flushers w_timer w_sched w_in_turn env_turn e_fuel] in B.
+  cbn [events flushers timer sched in_turn]. rewrite B. cbv beta iota zeta delta [ret]. cbn [app escape_evs].
+  rewrite ?app_nil_r. reflexivity.
 Qed.
 
-Lemma qinv_sched st : wfq st -> qinv st -> flushers st <> [] -> sched st = true.
+Lemma step_bridge w o : let '(w', t) := step_g w o in step good_cfg (to_q w) o = (to_q w', t).
+Proof. destruct o as [a|]; cbn [step_g step]; [apply do_act_bridge|apply turn_bridge]. Qed.
+
+(* THE TIE: for every program, the translated code in its environment and the reference machine produce the same
+   trace and reach the same state *)
+Theorem run_bridge ops : forall w,
+  let '(w', t) := run_g w ops in run good_cfg (to_q w) ops = (to_q w', t).
 Proof.
-  intros [_ W2] Q Hf. apply W2. intros C. apply Hf. apply Q. exact C.
+  induction ops as [|o ops IH]; intros w; cbn [run_g run]; [reflexivity|].
+  pose proof (step_bridge w o) as A. destruct (step_g w o) as [w1 t1]. rewrite A.
+  specialize (IH w1). destruct (run_g w1 ops) as [w2 t2]. rewrite IH. reflexivity.
 Qed.
 
-Lemma turn_good st st' t :
-  turn good_cfg st = (st', t) -> wft st ->
-  wft st' /\ Forall flush_ok t /\
-  ids (events st) ++ subs t = rans t ++ ids (events st') /\
-  firstn (List.length (events st)) (rans t) = ids (events st) /\
-  (exists t1 t2, t = t1 ++ t2 /\ rans t1 = ids (events st) /\ rans t2 = []) /\
-  map fst (flushers st) ++ fdeferred t = fpopped t ++ map fst (flushers st') /\
-  ffired t = fanswered t.
+Lemma run_g_spec ops w t : run_g w0 ops = (w, t) -> run good_cfg q0 ops = (to_q w, t).
+Proof. intros H. pose proof (run_bridge ops w0) as A. rewrite H in A. exact A. Qed.
+
+(* ======================= property theorems, about the translated code ======================= *)
+
+(* the translated eventually() only stores the entry and arms the reactor: it produces no event of its own and does
+   not use its environment -- in particular it never invokes the entry -- whatever the environment is *)
+Theorem ev_never_sync_code : forall (E : qenv) s w,
+  (exists w', m_eventually E s w = (w', [], FNorm)) /\
+  forall ctx, snd (do_act_g ctx w (AEnq s)) = [Sub (sid s)] /\
+  forall l, rans (snd (run_acts_g ctx w l)) = [].
 Proof.
-  unfold turn. intros H [[W1 W2] [Hi W3]].
-  destruct (sched st) eqn:Es; cbn [negb] in H.
-  - cbn [good_cfg c_clears c_marks c_order] in H.
-    match type of H with context [run_batch good_cfg ?s0 ?b] =>
-      destruct (run_batch good_cfg s0 b) as [[st1 t1] ok] eqn:E; set (st0 := s0) in * end.
-    apply run_batch_good in E as (B0 & B1 & B2 & B3 & B4 & B5 & B6 & B7 & B8). subst ok.
-    assert (W0 : wfq st0) by (split; [reflexivity|]; intros C; exfalso; apply C; reflexivity).
-    specialize (B4 W0). specialize (B5 eq_refl). cbn [st0 events in_turn flushers ids map app] in B2, B3, B7.
-    assert (Hnf : Forall flush_ok t1) by (apply noflushfired_ok; exact B5).
-    unfold fire in H. cbn [good_cfg c_fire flushers] in H.
-    match type of H with context [fire_while good_cfg ?fu ?s2] =>
-      pose proof (fire_while_complete good_cfg fu s2 (le_n _)) as Hx;
-      destruct (fire_while good_cfg fu s2) as [st2 t2] eqn:E2 end.
-    injection H as <- <-. cbn [fst] in Hx.
-    apply fire_while_good in E2 as (C1 & C2 & C3 & C4 & C5 & C6 & C7); [|exact B4|reflexivity].
-    cbn [events flushers] in C5, C6.
-    split.
-    { split; [exact C1|]. split; [exact C2|]. intros He. destruct Hx as [Hx|Hx]; [exact Hx|contradiction]. }
-    split; [apply Forall_app; split; assumption|].
-    rewrite subs_app, rans_app, fdeferred_app, fpopped_app, ffired_app, fanswered_app.
-    rewrite C4, app_nil_r, B1, C5, B2, B6, B8, C7. cbn [app].
-    split; [rewrite app_assoc; reflexivity|]. split.
-    { unfold ids. rewrite <- (map_length sid (events st)). apply firstn_all. }
-    split; [exists t1, t2; auto|]. split; [|reflexivity].
-    rewrite app_assoc, <- B7. exact C6.
-  - injection H as <- <-.
-    assert (He : events st = []).
-    { destruct (events st) eqn:E; [reflexivity|]. assert (false = true) by (apply W2; discriminate). discriminate. }
-    split; [unfold wft, wfq; rewrite Es; auto|]. split; [constructor|].
-    rewrite He. cbn [ids map app subs rans List.length firstn fdeferred fpopped ffired fanswered]. rewrite app_nil_r.
-    split; [reflexivity|]. split; [reflexivity|]. split; [exists [], []; auto|]. split; reflexivity.
+  intros E s w. split; [destruct (eventually_bridge E s w) as (w' & A & _); eauto|].
+  intros ctx. split.
+  - pose proof (do_act_bridge (AEnq s) ctx w) as A. destruct (do_act_g ctx w (AEnq s)) as [w' t].
+    cbn [snd]. pose proof (EventualSpecProofs.ev_never_sync ctx (to_q w) s) as [B _]. rewrite A in B. exact B.
+  - intros l. pose proof (run_acts_bridge ctx l w) as A. destruct (run_acts_g ctx w l) as [w' t]. cbn [snd].
+    pose proof (EventualSpecProofs.ev_never_sync ctx (to_q w) s) as [_ B]. specialize (B l). rewrite A in B. exact B.
 Qed.
 
-Lemma act_top_good st a st' t :
-  do_act good_cfg None st a = (st', t) -> wft st ->
-  wft st' /\ Forall flush_ok t /\ ids (events st) ++ subs t = rans t ++ ids (events st') /\
-  map fst (flushers st) ++ fdeferred t = fpopped t ++ map fst (flushers st') /\ ffired t = fanswered t.
+(* ... which is a fact about THIS translation: an append() that also contains the call statement is translated to
+   code that runs the entry inside eventually() *)
+Definition m_append_sync {C F U : Type} (E : env C F U) (x : C) : EventualBase.act C F U :=
+  seqa (p_events_append x) (seqa (e_call_now E x) (seqa (cond (fun w => negb (t_timer w)) (seqa p_arm_timer ret) ret) ret)).
+Lemma ev_never_sync_needs_translation :
+  exists (E : qenv) s w, In (Ran (sid s)) (snd (fst (m_append_sync E s w))).
 Proof.
-  intros H (W & Hi & Q).
-  apply do_act_spec in H as (A1 & A2 & A3 & A4 & A5 & A6 & A7 & A8 & A9 & A10 & A11 & A12).
-  rewrite A1, A2, A3, A5. cbn [app].
-  split; [|split; [apply A10; reflexivity|split; [reflexivity|split; [reflexivity|exact A6]]]].
-  split; [apply A7; exact W|]. split; [congruence|]. apply A11; assumption.
+  exists (env_out (fun s w => (w, [Ran (sid s)], FNorm))), (Sc 1 [] RNo), w0. cbn. auto.
 Qed.
 
-Definition step_spec (st st' : qstate) (t : list ev) : Prop :=
-  wft st' /\ Forall flush_ok t /\ ids (events st) ++ subs t = rans t ++ ids (events st') /\
-  map fst (flushers st) ++ fdeferred t = fpopped t ++ map fst (flushers st') /\ ffired t = fanswered t.
+Theorem ev_fifo_code : forall ops w t,
+  run_g w0 ops = (w, t) -> subs t = rans t ++ map sid (w_events w).
+Proof. intros ops w t H. apply run_g_spec in H. apply (EventualSpecProofs.ev_fifo _ _ _ H). Qed.
 
-Lemma step_good st o st' t :
-  step good_cfg st o = (st', t) -> wft st -> step_spec st st' t.
+Corollary ev_exactly_once_code : forall ops w t,
+  run_g w0 ops = (w, t) -> w_events w = [] -> rans t = subs t.
+Proof. intros ops w t H He. apply run_g_spec in H. apply (EventualSpecProofs.ev_exactly_once _ _ _ H He). Qed.
+
+Theorem ev_isolation_code : forall ops w t w' t',
+  run_g w0 ops = (w, t) -> turn_g w = (w', t') ->
+  rans t' = map sid (w_events w) /\ map sid (w_events w') = subs t'.
 Proof.
-  destruct o as [a|]; cbn [step]; intros H W.
-  - eapply act_top_good; eassumption.
-  - apply turn_good in H as (A & B & C & _ & _ & D & E); [|exact W]. unfold step_spec. auto.
+  intros ops w t w' t' H Ht. apply run_g_spec in H. pose proof (turn_bridge w) as A. rewrite Ht in A.
+  apply (EventualSpecProofs.ev_isolation _ _ _ _ _ H A).
 Qed.
 
-Lemma run_good ops : forall st st' t,
-  run good_cfg st ops = (st', t) -> wft st -> step_spec st st' t.
+Theorem ev_scheduled_code : forall ops w t,
+  run_g w0 ops = (w, t) ->
+  (w_events w <> [] -> w_sched w = true) /\ (w_flushers w <> [] -> w_sched w = true) /\ w_in_turn w = false.
+Proof. intros ops w t H. apply run_g_spec in H. apply (EventualSpecProofs.ev_scheduled _ _ _ H). Qed.
+
+Theorem ev_flush_code : forall ops w t,
+  run_g w0 ops = (w, t) -> Forall flush_ok t.
+Proof. intros ops w t H. apply run_g_spec in H. apply (EventualSpecProofs.ev_flush _ _ _ H). Qed.
+
+Theorem ev_flush_accounting_code : forall ops w t,
+  run_g w0 ops = (w, t) ->
+  fdeferred t = fpopped t ++ map fst (w_flushers w) /\ ffired t = fanswered t.
+Proof. intros ops w t H. apply run_g_spec in H. apply (EventualSpecProofs.ev_flush_accounting _ _ _ H). Qed.
+
+Theorem ev_flush_drained_code : forall ops w t,
+  run_g w0 ops = (w, t) -> w_events w = [] ->
+  w_flushers w = [] /\ fdeferred t = fpopped t.
+Proof. intros ops w t H He. apply run_g_spec in H. apply (EventualSpecProofs.ev_flush_drained _ _ _ H He). Qed.
+
+Theorem ev_flush_sync_iff_code : forall ops w t fid cb,
+  run_g w0 ops = (w, t) ->
+  (w_events w = [] -> exists t', snd (do_act_g None w (AFlush fid cb)) = FlushReq fid false :: FlushFired fid 0%nat false :: t') /\
+  (w_events w <> [] -> exists w', do_act_g None w (AFlush fid cb) = (w', [FlushReq fid true]) /\
+                                  w_flushers w' = w_flushers w ++ [(fid, cb)] /\ w_events w' = w_events w).
 Proof.
-  induction ops as [|o ops IH]; intros st st' t; cbn [run].
-  - intros H W; inversion H; subst. unfold step_spec. cbn [subs rans fdeferred fpopped ffired fanswered app].
-    rewrite !app_nil_r. split; [exact W|]. split; [constructor|]. auto.
-  - destruct (step good_cfg st o) as [st1 t1] eqn:E1. destruct (run good_cfg st1 ops) as [st2 t2] eqn:E2.
-    intros H W; inversion H; subst; clear H.
-    apply step_good in E1 as (A1 & A2 & A3 & A4 & A5); [|exact W].
-    apply IH in E2 as (B1 & B2 & B3 & B4 & B5); [|exact A1].
-    split; [exact B1|]. split; [apply Forall_app; split; assumption|].
-    rewrite subs_app, rans_app, fdeferred_app, fpopped_app, ffired_app, fanswered_app.
-    split; [rewrite app_assoc, A3, <- !app_assoc, B3; reflexivity|].
-    split; [rewrite app_assoc, A4, <- !app_assoc, B4; reflexivity|].
-    rewrite A5, B5. reflexivity.
+  intros ops w t fid cb H. apply run_g_spec in H.
+  destruct (EventualSpecProofs.ev_flush_sync_iff _ _ _ fid cb H) as [A B].
+  pose proof (do_act_bridge (AFlush fid cb) None w) as D. destruct (do_act_g None w (AFlush fid cb)) as [w' t'] eqn:E.
+  split.
+  - intros He. destruct (A He) as (t'' & A'). rewrite D in A'. exists t''. exact A'.
+  - intros He. specialize (B He). rewrite D in B.
+    pose proof (f_equal snd B) as B2. pose proof (f_equal (fun r => flushers (fst r)) B) as F1.
+    pose proof (f_equal (fun r => events (fst r)) B) as F2. cbn [fst snd to_q set_flushers flushers events] in B2, F1, F2.
+    exists w'. split; [rewrite B2; reflexivity|]. split; [exact F1|exact F2].
 Qed.
 
-Lemma wft_q0 : wft q0.
+(* the iteration bound the environment gives the translated observer loop never cuts it short: when the loop of the
+   model stops, the loop condition of the code is false *)
+Theorem observer_loop_complete : forall c body n w,
+  obs_cond c -> pops_and_fires body -> (obs_weight (w_flushers w) <= n)%nat ->
+  let w1 := fst (fst (while_fuel n c body w)) in c w1 = false.
 Proof.
-  split; [split; [reflexivity|intros C; exfalso; apply C; reflexivity]|]. split; [reflexivity|]. intros _; reflexivity.
+  intros c body n w Hc Hb Hn. pose proof (while_bridge c body Hc Hb n w) as A.
+  destruct (while_fuel n c body w) as [[w1 t1] f1]. destruct A as [A _]. cbn [fst].
+  pose proof (fire_while_complete good_cfg n (to_q w) Hn) as B. rewrite A in B. cbn [fst] in B.
+  rewrite Hc. destruct B as [B|B].
+  - change (flushers (to_q w1)) with (w_flushers w1) in B. rewrite B. reflexivity.
+  - change (events (to_q w1)) with (w_events w1) in B. destruct (w_events w1); [contradiction|].
+    cbn [is_nil]. apply andb_false_r.
 Qed.
 
-(* ======================= property theorems ======================= *)
-
-(* eventually(f) only records f: nothing runs, whatever the state and whoever calls it
-   (top level, a callable of the running batch, the callback of a flush Deferred).
-   This rests on the translated fact ev_append_runs_callable = false (c_append_runs src_cfg): see
-   [ev_never_sync_needs_fact] below. *)
-Theorem ev_never_sync : forall ctx st s,
-  snd (do_act src_cfg ctx st (AEnq s)) = [Sub (sid s)] /\
-  forall l, rans (snd (run_acts src_cfg ctx st l)) = [].
-Proof.
-  rewrite src_is_good. intros ctx st s. split; [reflexivity|].
-  intros l. destruct (run_acts good_cfg ctx st l) as [st' t] eqn:E. apply run_acts_spec in E. apply E.
-Qed.
-
-(* ... and the dependence on that fact is real: for a configuration whose append() calls cb, the statement fails --
-   the callable runs inside eventually() (and once more in its turn) *)
-Lemma ev_never_sync_needs_fact :
-  exists c ctx st s, c_append_runs c = true /\ In (Ran (sid s)) (snd (do_act c ctx st (AEnq s))).
-Proof.
-  exists append_sync_cfg, None, q0, (Sc 1 [] RNo). split; [reflexivity|]. vm_compute. tauto.
-Qed.
-
-Lemma ev_never_sync_append_sync_refuted :
-  let ops := [OAct (AEnq (Sc 1 [AEnq (Sc 2 [] RNo); AFlush 7 []] RExc)); OTurn; OTurn] in
-  snd (run append_sync_cfg q0 ops) =
-    [Sub 1; Ran 1; Sub 2; Ran 2; FlushReq 7 true; Raised 1; Escaped 1;
-     Ran 1; Sub 2; Ran 2; FlushReq 7 true; Raised 1; Ran 2; Ran 2; FlushPop 7; FlushFired 7 0%nat false;
-     FlushPop 7; FlushFired 7 0%nat false].
-Proof. vm_compute. reflexivity. Qed.
-
-Example ev_never_sync_now :
-  let ops := [OAct (AEnq (Sc 1 [AEnq (Sc 2 [] RNo); AFlush 7 []] RExc)); OTurn; OTurn] in
-  c_append_runs src_cfg = false /\
-  snd (do_act src_cfg None q0 (AEnq (Sc 1 [AEnq (Sc 2 [] RNo); AFlush 7 []] RExc))) = [Sub 1] /\
-  snd (run src_cfg q0 ops) =
-    [Sub 1; Ran 1; Sub 2; FlushReq 7 true; Raised 1; Ran 2; FlushPop 7; FlushFired 7 0%nat false].
+(* non-vacuity: the translated code on a program with re-entrant enqueueing, a raising callable, nested flush callbacks *)
+Example ev_gen_example :
+  let ops := [OAct (AEnq (Sc 1 [AEnq (Sc 3 [] RNo); AFlush 8 [AEnq (Sc 4 [] RBase); AFlush 11 []]] RExc)); OAct (AFlush 9 []);
+              OAct (AEnq (Sc 2 [] RNo)); OTurn; OTurn; OTurn; OAct (AFlush 10 [AFlush 12 []])] in
+  snd (run_g w0 ops) = snd (run good_cfg q0 ops) /\
+  rans (snd (run_g w0 ops)) = [1; 2; 3; 4] /\ ffired (snd (run_g w0 ops)) = [9; 8; 11; 10; 12].
 Proof. vm_compute. repeat split; reflexivity. Qed.
 
-(* run order = submission order: at any moment the callables submitted so far (at top level,
-   re-entrantly, or by flush callbacks) are, in order, those already run followed by those still queued *)
+(* ---- names kept for lib/OrderEventual.v (C04): the reference machine with the shape of the current code (src_cfg);
+   by run_bridge these are statements about the translated code *)
+Lemma src_is_good : src_cfg = good_cfg.
+Proof. reflexivity. Qed.
 Theorem ev_fifo : forall ops st t,
-  run src_cfg q0 ops = (st, t) -> subs t = rans t ++ map sid (events st).
-Proof.
-  rewrite src_is_good. intros ops st t H. apply run_good in H as (_ & _ & H & _); [|exact wft_q0]. exact H.
-Qed.
-
-Corollary ev_exactly_once : forall ops st t,
-  run src_cfg q0 ops = (st, t) -> events st = [] -> rans t = subs t.
-Proof. intros ops st t H He. apply ev_fifo in H. rewrite He, app_nil_r in H. auto. Qed.
-
-(* one turn runs exactly the callables queued when it started, in order, whether or not some
-   of them raise; what they (or the flush callbacks served at the end of the turn) enqueue is
-   left for a later turn *)
+  EventualSpec.run src_cfg q0 ops = (st, t) -> subs t = rans t ++ map sid (events st).
+Proof. exact EventualSpecProofs.ev_fifo. Qed.
 Theorem ev_isolation : forall ops st t st' t',
-  run src_cfg q0 ops = (st, t) -> turn src_cfg st = (st', t') ->
+  EventualSpec.run src_cfg q0 ops = (st, t) -> EventualSpec.turn src_cfg st = (st', t') ->
   rans t' = map sid (events st) /\ map sid (events st') = subs t'.
-Proof.
-  rewrite src_is_good. intros ops st t st' t' H Ht.
-  apply run_good in H as (W & _ & _); [|exact wft_q0].
-  apply turn_good in Ht as (_ & _ & A & _ & (t1 & t2 & -> & B1 & B2) & _); [|exact W].
-  rewrite rans_app, B1, B2, app_nil_r in *. split; [reflexivity|].
-  apply app_inv_head in A. auto.
-Qed.
-
-(* work that is queued always has a reactor call pending, and so has a registered flush observer *)
-Theorem ev_scheduled : forall ops st t,
-  run src_cfg q0 ops = (st, t) ->
-  (events st <> [] -> sched st = true) /\ (flushers st <> [] -> sched st = true) /\ in_turn st = false.
-Proof.
-  rewrite src_is_good. intros ops st t H. apply run_good in H as ((W & Hi & Q) & _ & _); [|exact wft_q0].
-  split; [apply W|]. split; [apply qinv_sched; assumption|exact Hi].
-Qed.
-
-(* the flush notification fires only when nothing is queued and no callable of a batch is running *)
-Theorem ev_flush : forall ops st t,
-  run src_cfg q0 ops = (st, t) -> Forall flush_ok t.
-Proof.
-  rewrite src_is_good. intros ops st t H. apply run_good in H as (_ & H & _); [|exact wft_q0]. exact H.
-Qed.
-
-(* NEW.  No flush observer is lost, none is notified twice, and the deferred ones are served in request order:
-   for every program,
-   - the deferred requests made so far are, in order, the observers taken out of the list so far followed by
-     those still registered;
-   - the notifications are, in order and one for one, the requests answered at once (made on the idle queue)
-     and the observers taken out of the list. *)
-Theorem ev_flush_accounting : forall ops st t,
-  run src_cfg q0 ops = (st, t) ->
-  fdeferred t = fpopped t ++ map fst (flushers st) /\ ffired t = fanswered t.
-Proof.
-  rewrite src_is_good. intros ops st t H. apply run_good in H as (_ & _ & _ & A & B); [|exact wft_q0].
-  cbn [q0 flushers map app] in A. auto.
-Qed.
-
-(* NEW.  Whenever the queue is empty between two operations -- in particular after a turn that leaves it
-   empty -- no observer remains registered: every deferred request made so far has been notified *)
-Theorem ev_flush_drained : forall ops st t,
-  run src_cfg q0 ops = (st, t) -> events st = [] ->
-  flushers st = [] /\ fdeferred t = fpopped t.
-Proof.
-  intros ops st t H He. pose proof (ev_flush_accounting _ _ _ H) as [A _].
-  rewrite src_is_good in H. apply run_good in H as ((_ & _ & Q) & _); [|exact wft_q0].
-  specialize (Q He). rewrite Q in A. cbn [map] in A. rewrite app_nil_r in A. auto.
-Qed.
-
-(* NEW.  A flush request made between two operations is answered at once exactly when nothing is queued *)
-Theorem ev_flush_sync_iff : forall ops st t fid cb,
-  run src_cfg q0 ops = (st, t) ->
-  (events st = [] -> exists t', snd (do_act src_cfg None st (AFlush fid cb)) = FlushReq fid false :: FlushFired fid 0%nat false :: t') /\
-  (events st <> [] -> do_act src_cfg None st (AFlush fid cb) = (set_flushers st (flushers st ++ [(fid, cb)]), [FlushReq fid true])).
-Proof.
-  rewrite src_is_good. intros ops st t fid cb H.
-  apply run_good in H as ((_ & Hi & _) & _); [|exact wft_q0].
-  rewrite do_act_unfold. unfold flush_idle, fired_ev. cbn [good_cfg c_guard]. rewrite Hi. split.
-  - intros ->. cbn [is_nil andb negb]. destruct (run_acts good_cfg None st cb) as [st1 t1]. cbn [snd].
-    exists t1. cbn [List.length]. destruct st; reflexivity.
-  - intros Hn. destruct (events st); [contradiction|]. reflexivity.
-Qed.
-
-(* D11, for the record: the guard `if not self._events` of the earlier code admits a notification
-   while a later callable of the same batch has not run *)
-Definition d11_witness : list op :=
-  [OAct (AEnq (Sc 1 [AFlush 7 []] RNo)); OAct (AEnq (Sc 2 [] RNo)); OTurn].
-
-Lemma ev_flush_old_guard_refuted :
-  exists ops st t, run old_cfg q0 ops = (st, t) /\ In (FlushFired 7 1%nat true) t.
-Proof. exists d11_witness. eexists. eexists. split; [vm_compute; reflexivity|]. cbn. tauto. Qed.
-
-Example d11_witness_now :
-  snd (run src_cfg q0 d11_witness) =
-  [Sub 1; Sub 2; Ran 1; FlushReq 7 true; Ran 2; FlushPop 7; FlushFired 7 0%nat false].
-Proof. vm_compute. reflexivity. Qed.
-
-(* the second repair, for the record: with `if not self._events: fire every observer` a later observer is
-   notified although the callback of an earlier one has just enqueued work *)
-Definition d17_witness : list op :=
-  [OAct (AEnq (Sc 1 [] RNo)); OAct (AFlush 7 [AEnq (Sc 2 [] RNo)]); OAct (AFlush 8 []); OTurn].
-
-Lemma ev_flush_old_loop_refuted :
-  exists ops st t, run old2_cfg q0 ops = (st, t) /\ In (FlushFired 8 1%nat false) t.
-Proof. exists d17_witness. eexists. eexists. split; [vm_compute; reflexivity|]. cbn. tauto. Qed.
-
-Example d17_witness_now :
-  snd (run src_cfg q0 (d17_witness ++ [OTurn])) =
-  [Sub 1; FlushReq 7 true; FlushReq 8 true; Ran 1; FlushPop 7; FlushFired 7 0%nat false; Sub 2; Ran 2;
-   FlushPop 8; FlushFired 8 0%nat false].
-Proof. vm_compute. reflexivity. Qed.
-
-(* non-vacuity: a program with re-entrant enqueueing, a raising callable and flushes *)
-Example ev_example :
-  let ops := [OAct (AEnq (Sc 1 [AEnq (Sc 3 [] RNo); AFlush 8 [AEnq (Sc 4 [] RBase)]] RExc)); OAct (AFlush 9 []);
-              OAct (AEnq (Sc 2 [] RNo)); OTurn; OTurn; OTurn; OAct (AFlush 10 [])] in
-  snd (run src_cfg q0 ops) =
-    [Sub 1; FlushReq 9 true; Sub 2; Ran 1; Sub 3; FlushReq 8 true; Raised 1; Ran 2; Ran 3;
-     FlushPop 9; FlushFired 9 0%nat false; FlushPop 8; FlushFired 8 0%nat false; Sub 4;
-     Ran 4; Raised 4; FlushReq 10 false; FlushFired 10 0%nat false]
-  /\ events (fst (run src_cfg q0 ops)) = [].
-Proof. vm_compute. split; reflexivity. Qed.
-
-(* non-vacuity of the nested callbacks.
-   (1) a callback that calls flush on the idle queue: the inner Deferred comes back fired and ITS callback runs
-       at once, nested (request 2 is answered before the outer callback goes on to enqueue callable 5) *)
-Example ev_nested_sync :
-  snd (run src_cfg q0 [OAct (AFlush 1 [AFlush 2 [AEnq (Sc 4 [] RNo)]; AEnq (Sc 5 [] RNo)]); OTurn]) =
-  [FlushReq 1 false; FlushFired 1 0%nat false; FlushReq 2 false; FlushFired 2 0%nat false; Sub 4; Sub 5; Ran 4; Ran 5].
-Proof. vm_compute. reflexivity. Qed.
-
-(* (2) a callback that first enqueues work and then calls flush: the request is deferred, stays registered behind
-       the observers that were not served yet (8), and both wait for the turn that runs the new work *)
-Example ev_nested_deferred :
-  let ops := [OAct (AEnq (Sc 1 [] RNo)); OAct (AFlush 7 [AEnq (Sc 2 [] RNo); AFlush 9 []]); OAct (AFlush 8 []); OTurn] in
-  snd (run src_cfg q0 ops) =
-    [Sub 1; FlushReq 7 true; FlushReq 8 true; Ran 1; FlushPop 7; FlushFired 7 0%nat false; Sub 2; FlushReq 9 true]
-  /\ map fst (flushers (fst (run src_cfg q0 ops))) = [8; 9]
-  /\ snd (run src_cfg q0 (ops ++ [OTurn])) =
-    [Sub 1; FlushReq 7 true; FlushReq 8 true; Ran 1; FlushPop 7; FlushFired 7 0%nat false; Sub 2; FlushReq 9 true;
-     Ran 2; FlushPop 8; FlushFired 8 0%nat false; FlushPop 9; FlushFired 9 0%nat false]
-  /\ flushers (fst (run src_cfg q0 (ops ++ [OTurn]))) = [].
-Proof. vm_compute. repeat split; reflexivity. Qed.
-
-(* (3) two levels of nesting inside the observer loop of _turn: observer 7's callback calls flush (3, answered at
-       once: the queue is empty and no batch is running), whose callback calls flush (4, at once), whose callback
-       enqueues 5 and calls flush (6, deferred: it is appended to the LIVE list behind observer 8, which the
-       loop has not served yet); a request answered at once overtakes the registered observer 8 *)
-Example ev_nested_two_levels :
-  let ops := [OAct (AEnq (Sc 1 [AFlush 7 [AFlush 3 [AFlush 4 [AEnq (Sc 5 [] RNo); AFlush 6 []]]]; AFlush 8 []] RNo)); OTurn] in
-  snd (run src_cfg q0 ops) =
-    [Sub 1; Ran 1; FlushReq 7 true; FlushReq 8 true; FlushPop 7; FlushFired 7 0%nat false;
-     FlushReq 3 false; FlushFired 3 0%nat false; FlushReq 4 false; FlushFired 4 0%nat false; Sub 5; FlushReq 6 true]
-  /\ map fst (flushers (fst (run src_cfg q0 ops))) = [8; 6]
-  /\ snd (run src_cfg q0 (ops ++ [OTurn])) = snd (run src_cfg q0 ops) ++
-       [Ran 5; FlushPop 8; FlushFired 8 0%nat false; FlushPop 6; FlushFired 6 0%nat false]
-  /\ flushers (fst (run src_cfg q0 (ops ++ [OTurn]))) = [].
-Proof. vm_compute. repeat split; reflexivity. Qed.
-
-(* the snapshot loop of the earlier code (old2_cfg, seeded change C17-s1) on the same program: observer 8 is notified
-   although callable 5 -- enqueued by the nested callback of observer 7 -- has not run *)
-Lemma ev_flush_old_loop_nested_refuted :
-  let ops := [OAct (AEnq (Sc 1 [AFlush 7 [AFlush 3 [AFlush 4 [AEnq (Sc 5 [] RNo); AFlush 6 []]]]; AFlush 8 []] RNo)); OTurn] in
-  In (FlushFired 8 1%nat false) (snd (run old2_cfg q0 ops)) /\ map fst (flushers (fst (run old2_cfg q0 ops))) = [6].
-Proof. vm_compute. split; [tauto|reflexivity]. Qed.
-
-(* a loop over a snapshot of the observers that forgets what the callbacks registered meanwhile would lose observer 6
-   of that program; the live loop of the current code keeps it: this is what [ev_flush_accounting] excludes *)
-Example ev_live_list_keeps_late_observers :
-  let ops := [OAct (AEnq (Sc 1 [] RNo)); OAct (AFlush 7 [AEnq (Sc 2 [] RNo); AFlush 9 [AFlush 10 []]]); OTurn; OTurn] in
-  ffired (snd (run src_cfg q0 ops)) = [7; 9; 10] /\ freqs (snd (run src_cfg q0 ops)) = [7; 9; 10] /\
-  flushers (fst (run src_cfg q0 ops)) = [].
-Proof. vm_compute. repeat split; reflexivity. Qed.
-
-(* `except Exception:` (seeded change C17-r2s1), for the record: a callable that raises a BaseException which is not
-   an Exception ends the turn, and the callables queued behind it never run *)
-Lemma ev_isolation_exc_only_refuted :
-  let ops := [OAct (AEnq (Sc 1 [] RNo)); OAct (AEnq (Sc 2 [] RBase)); OAct (AEnq (Sc 3 [] RNo)); OTurn; OTurn] in
-  rans (snd (run exc_only_cfg q0 ops)) = [1; 2] /\ in_turn (fst (run exc_only_cfg q0 ops)) = true.
-Proof. vm_compute. split; reflexivity. Qed.
-
-Example ev_isolation_base_now :
-  let ops := [OAct (AEnq (Sc 1 [] RNo)); OAct (AEnq (Sc 2 [] RBase)); OAct (AEnq (Sc 3 [] RNo)); OTurn; OTurn] in
-  snd (run src_cfg q0 ops) = [Sub 1; Sub 2; Sub 3; Ran 1; Ran 2; Raised 2; Ran 3].
-Proof. vm_compute. reflexivity. Qed.
+Proof. exact EventualSpecProofs.ev_isolation. Qed.
